@@ -71,13 +71,25 @@ def case_recipe(G, espec, rng, nmods, annotate=False, refs=False, rotate=True, s
                 elif how < 0.8:
                     spec["refs"][i] = "%s|Submitted (01-JAN-2020)||" % base
                     spec["refs"][j] = "%s|Submitted (02-FEB-2021)||" % base
-                else:
+                elif how < 0.9:
                     spec["refs"][j] = "%s|||second deposit" % base
+                else:         # two submissions with one title by different people, no PubMed id
+                    spec["refs"][i] = "Direct Submission|Submitted|||Lee M.E."
+                    spec["refs"][j] = "Direct Submission|Submitted|||Kim S."
             if nref >= 2 and rng.random() < 0.25:
                 i, j = sorted(rng.sample(range(nref), 2))
                 spec["refs"][j] = spec["refs"][i]          # two entries that compare equal; features may cite the later one
             if nref == 0 and rng.random() < 0.5:
                 spec.pop("refs")          # no reference list at all (equivalent to an empty one)
+        if rng.random() < 0.3:
+            # annotations of real files: none of them has any bearing on an assembly
+            spec["ann"] = {"molecule_type": rng.choice(["DNA", "ds-DNA", "ss-DNA", "genomic DNA", "other DNA", "ms-DNA", "mRNA", ""]),
+                           "data_file_division": rng.choice(["SYN", "UNA", "PLN"]), "organism": rng.choice(["synthetic DNA construct", "."]),
+                           "taxonomy": rng.choice([[], ["other sequences", "artificial sequences"]]),
+                           "keywords": rng.choice([[""], ["kw1", "kw2"]]), "date": "01-JAN-1980"}
+            if rng.random() < 0.3:
+                spec["ann"].pop("molecule_type")
+                spec["ann"]["topology"] = rng.choice(["circular", "Circular", "CIRCULAR"])
         if annotate:
             # fragment boundaries in the rotated coordinates, to place features on them
             spec["feats"] = rnd_features(s2, rng, cites=len(spec.get("refs", [])) if refs else 0,
